@@ -3,10 +3,10 @@ CONSTANTS
   MaxK = 8
   GenHist = FALSE
   KSet = {0}
-  NA = 3
-  NL = 4
-  NS = 3
-  NK = 2
+  NA = 2
+  NL = 3
+  NS = 2
+  NK = 1
   Strategies = {0, 1, 2, 3, 4, 5, 6}
   WKinds = {"off", "valid", "tight", "equal", "reversed", "zero", "bothzero", "negative", "nan10", "nan90", "inf90", "neginf10"}
   WinMode = "full"
